@@ -392,7 +392,10 @@ def gen_meta_doc(rng, base: L.Base):
     objs = base.graph["objs"]
     doc, tags = [], []
     nid = itertools.count(10000)
-    for _ in range(rng.randint(1, 3)):
+    # mostly one creation site per document, so that the first exception is the one the model predicts (the
+    # object layer below `create` may refuse an earlier site for reasons of its own)
+    single = rng.random() < 0.8
+    for _ in range(1 if single else rng.randint(2, 3)):
         o = rng.choice(objs)
         rows = by_cls.get(o["cls"], [])
         r = rng.random()
@@ -414,7 +417,7 @@ def gen_meta_doc(rng, base: L.Base):
         else:
             attr, k = rng.choice(rows)
         items = []
-        for _ in range(rng.randint(0, 2) if rng.random() < 0.85 else 0):
+        for _ in range((rng.randint(0, 1) if single else rng.randint(0, 2)) if rng.random() < 0.9 else 0):
             i = next(nid)
             h = rng.random()
             if h < 0.12:
@@ -425,8 +428,13 @@ def gen_meta_doc(rng, base: L.Base):
                 x["ty"] = rng.choice(good_hints)
             elif h < 0.55 and k is not None and k[0] == "coupled" and k[1][0] == "xtype" and k[1][1]:
                 x["ty"] = k[1][1]
-            elif h < 0.62:
-                x["ty"] = rng.choice(["Bogus", "logicalfunction", "la:NoSuch", ""])
+            elif h < 0.75:
+                # near misses of real hints (wrong case, clipped, padded, wrong namespace) and plain nonsense
+                gh = rng.choice(good_hints)
+                x["ty"] = rng.choice([gh.lower(), gh.upper(), gh + " ", gh[:-1], "x" + gh, gh.split(":")[-1] + ":" + gh.split(":")[-1],
+                                      "Bogus", "la:NoSuch", ""])
+                if x["ty"] in good_hints:
+                    x["ty"] = "Bogus"
             items.append(x)
         doc.append({"parent": {"u": o["id"]}, rng.choice(["create", "ext"]): [[attr, items]]})
         tags.append(kind_tag(k) + (":empty" if not items else ""))
@@ -777,6 +785,10 @@ def judge_meta(out, base, doc, iv, a, objlayer):
         if other:
             out.hit("meta.not-compared:other-creator")
             return
+        nsites = sum(len(l) for ins in doc for key in ("create", "ext") for _, l in ins.get(key, []))
+        if mv != iv and nsites > 1 and "error" in iv:
+            objlayer["earlier-site:" + iv["error"]] = objlayer.get("earlier-site:" + iv["error"], 0) + 1
+            return  # several sites: the object layer may have refused an earlier one
         if mv != iv:
             out.disagree("apply.meta", case, iv, mv)
         return
